@@ -7,7 +7,8 @@ LEVEL = 'proof'
 RULE = ('axis-aligned rectangles in each of the three coordinate planes, random offsets and sides 0.5-6 m, all 8 vertex '
         'orderings (4 rotations x 2 directions), patch sizes from side down to side/12 with side/p kept >= 0.05 away from an '
         'integer (main stream) plus a boundary stream on exact ratios (guarded); real _create_patches / _process_patches / '
-        'PatchesKang vs the Lean model, coordinates bit for bit; non-trivial = at least 2 patches')
+        'PatchesKang vs the Lean model, coordinates bit for bit; non-trivial = at least 2 patches; _process_patches on random rooms and on '
+        'rooms with integer sides and decimal patch sizes (0.1, 0.2, 0.25, 0.4, 0.5, side/k, 2.5/k): every wall block is a tiling of its wall and equals the Kang tiling')
 ASSUMPTIONS = ['theorems at real numbers; coordinates compared bit for bit with the model at float64',
                'numpy max/min/int semantics as modelled']
 EXPLANATION = 'floor(side/p) patches per direction, each the rectangle (x0+ix*rx, y0+iy*ry)+(rx,ry), congruent, pairwise interior-disjoint, covering the wall, areas summing to the wall area; result depends only on per-axis min/max and the flat coordinate (vertex-order free), commutes with translation; both engines use the same loop.'
@@ -53,6 +54,16 @@ def tiling_predicate(ctx, wall, pts, patches, tag):
     side = mx - mn
     n_exp = [int(np.floor(side[a] / p)) for a in ax]
     inp = {'pts': pts, 'patch_size': p}
+    if wall.get('boundary') and len(patches):
+        # side/p sits on an integer: in exact arithmetic floor may be one less than in floats; take the count
+        # from the patches themselves (either value is a legitimate floor), everything else is checked as usual
+        e0 = patches[0].max(axis=0) - patches[0].min(axis=0)
+        for k, a in enumerate(ax):
+            n = int(round(side[a] / e0[a])) if e0[a] > 0 else 0
+            if n != n_exp[k] and not (n == n_exp[k] - 1 and abs(side[a] / p - n_exp[k]) < 1e-9 and n >= 1):
+                ctx.violation('tiling-count', '%s: %d patches along axis %d, side/p = %r' % (tag, n, a, side[a] / p), inp, n, n_exp)
+                return False
+            n_exp[k] = n
     if len(patches) != n_exp[0] * n_exp[1]:
         ctx.violation('tiling-count', '%s: %d patches, expected floor(side/p) per direction = %d x %d' % (tag, len(patches), n_exp[0], n_exp[1]), inp, len(patches), n_exp)
         return False
@@ -130,30 +141,77 @@ def run_wall(ctx, wall, lines, meta):
         meta.append((wall, oi, out))
 
 
-def corr_process(ctx, rng):
-    """_process_patches on a shoebox: wall ids in index blocks; patches of each wall = _create_patches."""
+DECIMAL_P = [0.2, 0.4, 0.25, 0.5, 0.1]
+
+
+def gen_decimal_room(rng):
+    """Rooms as users type them: integer sides, decimal patch sizes (side/p an exact float integer although p is
+    not exactly representable), plus side/k patch sizes."""
+    while True:
+        sides = [float(x) for x in rng.integers(1, 6, size=3)]
+        kind = int(rng.integers(0, 3))
+        if kind == 0:
+            p = float(DECIMAL_P[int(rng.integers(0, len(DECIMAL_P)))])
+        elif kind == 1:
+            p = float(min(sides) / int(rng.integers(2, 13)))
+        else:
+            p = 2.5 / int(rng.integers(3, 13))
+        n = [int(np.floor(s / p)) for s in sides]
+        if min(n) >= 1 and 2 * (n[0] * n[1] + n[0] * n[2] + n[1] * n[2]) <= 900:
+            return sides, p
+
+
+def corr_process(ctx, rng, decimal=False, room=None):
+    """_process_patches on a shoebox: wall ids in index blocks; patches of each wall = _create_patches = the Kang
+    engine's patches, and the block of each wall is a tiling of that wall."""
     sp = common.import_repo()
     from sparrowpy import geometry
-    sides, p = scenes.gen_room_params(rng, small=False)
+    if room is not None:
+        sides, p = room
+        decimal = True
+    else:
+        sides, p = gen_decimal_room(rng) if decimal else scenes.gen_room_params(rng, small=False)
+    ctx.count('process_decimal_room', decimal)
     walls = sp.testing.shoebox_room_stub(*sides)
     wp = np.array([w.pts for w in walls])
     wn = np.array([w.normal for w in walls])
     pts, normals, n, ids = geometry._process_patches(wp, wn, p, len(walls))
     counts = [len(geometry._create_patches(w.pts.copy(), p)) for w in walls]
-    ks = list(range(n))
+    ks = list(range(sum(counts)))
     outs = common.run_driver(['wallof %d %s %d' % (len(counts), ' '.join(map(str, counts)), k) for k in ks])
     model_ids = [int(o.split(' ')[1]) for o in outs]
-    ctx.cmp.ints('corr:_process_patches wall ids', ids, model_ids)
-    ctx.cmp.tag('corr:_process_patches count', int(n), sum(counts))
+    inp = {'sides': sides, 'patch_size': p}
     ctx.oracle_evals += 1
+    ctx.cases += 1
+    if int(n) != len(pts) or len(ids) != len(pts) or len(normals) != len(pts):
+        ctx.violation('tiling-count', '_process_patches returns inconsistent lengths', inp, [int(n), len(pts), len(ids)], None)
+        return
+    if int(n) != sum(counts):
+        ctx.violation('tiling-count', '_process_patches returns %d patches, the walls tile into %d' % (int(n), sum(counts)), inp, int(n), sum(counts))
+        return
+    ctx.cmp.ints('corr:_process_patches wall ids', ids, model_ids)
     if not np.array_equal(normals, wn[ids]):
-        ctx.violation('tiling-normals', 'patches do not carry their wall\'s normal', {'sides': sides, 'patch_size': p}, None, None)
+        ctx.violation('tiling-normals', 'patches do not carry their wall\'s normal', inp, None, None)
     start = 0
     for w, c in enumerate(counts):
-        if not np.array_equal(pts[start:start + c], geometry._create_patches(walls[w].pts.copy(), p)):
-            ctx.violation('tiling-attribution', 'patch block of wall %d is not the tiling of that wall' % w, {'sides': sides, 'patch_size': p}, None, None)
+        block = pts[start:start + c]
+        if not np.array_equal(block, geometry._create_patches(walls[w].pts.copy(), p)):
+            ctx.violation('tiling-attribution', 'patch block of wall %d is not the tiling of that wall' % w, inp, None, None)
+            return
+        wpts = np.asarray(walls[w].pts, dtype=float)
+        ext = wpts.max(axis=0) - wpts.min(axis=0)
+        wall = dict(plane=int(np.argmin(ext)), p=p, boundary=decimal)
+        if not tiling_predicate(ctx, wall, wpts, block, 'fast engine, wall %d of a room' % w):
+            return
+        try:
+            pk = sp.PatchesKang(walls[w], p, [1], 0)
+            kang = np.array([q.pts for q in pk.patches])
+            if kang.shape != block.shape or not np.array_equal(kang, block):
+                ctx.violation('tiling-engines-differ', 'Kang engine and fast engine tile wall %d of a room differently' % w, inp, None, 'same tiling')
+                return
+        except AssertionError:
+            pass
         start += c
-    ctx.cases += 1
 
 
 def corr_area_center(ctx, n):
@@ -204,19 +262,22 @@ def run(ctx):
         if len(out) >= 2:
             ctx.nontriv([wall['plane'], oi, round(wall['p'], 6), [round(x, 6) for x in wall['sides']]])
         ctx.sample({'plane': wall['plane'], 'sides': wall['sides'].tolist(), 'patch_size': wall['p'], 'ordering': oi, 'n_patches': len(out)}, limit=3)
-    for _ in range(2 if ctx.tier == 'quick' else 20):
-        corr_process(ctx, ctx.rng)
+    for k in range(20 if ctx.tier == 'quick' else 120):
+        corr_process(ctx, ctx.rng, decimal=(k % 2 == 1))
 
 
 def oracle(ctx, budget_s=60):
     t = common.Timer()
     while t.s() < budget_s and not ctx.violations:
         run_wall(ctx, gen_wall(ctx.rng), [], [])
-        corr_process(ctx, ctx.rng)
+        corr_process(ctx, ctx.rng, decimal=bool(ctx.rng.integers(0, 2)))
 
 
 def replay(ctx, rp):
     inp = rp['input']
+    if 'sides' in inp:
+        corr_process(ctx, ctx.rng, room=([float(x) for x in inp['sides']], float(inp['patch_size'])))
+        return not ctx.violations
     pts = np.array(inp['pts'], dtype=float)
     ext = pts.max(axis=0) - pts.min(axis=0)
     wall = dict(plane=int(np.argmin(ext)), pts=pts, p=float(inp['patch_size']), sides=np.sort(ext)[1:], boundary=False)
